@@ -31,6 +31,9 @@ func (id *ImportDesc) ImportString() string {
 type ImportHandler struct {
 	PInfo   *packages.Package
 	imports map[string]*ImportDesc
+	// shadowed holds the import specs of the source file whose package path is imported again by
+	// a later spec under another name (the later spec is the one in `imports`).
+	shadowed []*ImportDesc
 }
 
 // calcImports the imports relevant to a specific package and ImportSpec.
@@ -58,6 +61,9 @@ func calcImports(pkg *packages.Package, fAST *ast.File) *ImportHandler {
 			aliasIsPackageName = true
 		}
 
+		if previous, ok := result.imports[pkgPath]; ok {
+			result.shadowed = append(result.shadowed, previous)
+		}
 		result.imports[pkgPath] = &ImportDesc{
 			PkgPath:            pkgPath,
 			Alias:              alias,
@@ -159,6 +165,26 @@ func (ih *ImportHandler) addNamed(t named) string {
 	return fmt.Sprintf("%s%s", alias, typeName)
 }
 
+// UseName marks the import that the source file refers to by the given name (its alias, or the
+// package name of an unnamed import) as in use. Generators call it for package qualifiers that
+// appear in source text they copy verbatim. It returns false if the file has no such import.
+func (ih *ImportHandler) UseName(name string) bool {
+	found := false
+	for _, i := range ih.imports {
+		if i.Alias == name {
+			i.inUse = true
+			found = true
+		}
+	}
+	for _, i := range ih.shadowed {
+		if i.Alias == name {
+			i.inUse = true
+			found = true
+		}
+	}
+	return found
+}
+
 // GetActive returns ordered, active imports.
 // Used by templates.
 func (ih *ImportHandler) GetActive() []ImportDesc {
@@ -168,8 +194,16 @@ func (ih *ImportHandler) GetActive() []ImportDesc {
 			result = append(result, *i)
 		}
 	}
+	for _, i := range ih.shadowed {
+		if i.inUse {
+			result = append(result, *i)
+		}
+	}
 	sort.Slice(result, func(i, j int) bool {
-		return result[i].PkgPath < result[j].PkgPath
+		if result[i].PkgPath != result[j].PkgPath {
+			return result[i].PkgPath < result[j].PkgPath
+		}
+		return result[i].Alias < result[j].Alias
 	})
 	return result
 }
